@@ -34,6 +34,7 @@ pub struct MemberB {
 }
 
 pub struct PoolB {
+    pub genesis_verifier: mithril_common::crypto_helper::GenesisVerifier,
     pub members: Vec<MemberB>,
     pub messages: Arc<Vec<MithrilCertificate>>,
     pub facts: Vec<NodeFacts>,
@@ -110,6 +111,11 @@ pub fn build_pool(w: &World, honest_chains: &[&str], threads: usize) -> PoolB {
                 }
             }
         }
+        // genesis-epoch graft: rewritten unsigned fields of the genesis certificate + an
+        // adversary-signed certificate of the genesis epoch chained to it + the adversarial chain on top
+        for (cert, chain, pos, m) in crate::pool::genesis_epoch_graft(w, hname).members {
+            push(&mut out, cert, &chain, pos, m, false);
+        }
         // links re-targeted to the following epoch
         for (pos, c) in h.certs.iter().enumerate().skip(1) {
             if let Some(&npos) = first_of_epoch.get(&(c.epoch.0 + 1)) {
@@ -140,7 +146,7 @@ pub fn build_pool(w: &World, honest_chains: &[&str], threads: usize) -> PoolB {
     }
     let hashes: Vec<String> = members.iter().map(|m| m.cert.hash.clone()).collect::<BTreeSet<_>>().into_iter().collect();
     let messages = Arc::new(members.iter().map(|m| m.msg.clone()).collect::<Vec<_>>());
-    PoolB { members, messages, facts, chain_defect, default_answer: Arc::new(default_answer), hashes }
+    PoolB { genesis_verifier: w.genesis_verifier.clone(), members, messages, facts, chain_defect, default_answer: Arc::new(default_answer), hashes }
 }
 
 #[derive(Clone, Copy, Debug, PartialEq, Eq, Hash, PartialOrd, Ord)]
@@ -323,8 +329,21 @@ pub fn judge(pool: &PoolB, res: &CallResult, call: &Call, cache_was_empty: bool)
         // verifier cache: the cache vouched for a chain that was never validated down to genesis
         let at_hash = pool.members[d.at].cert.hash.as_str();
         let at_validated_here = res.events.iter().any(|e| !e.0 && e.1 == at_hash);
-        let skipped_by_cache =
-            !at_validated_here && d.path.iter().any(|i| from_cache.contains(&pool.members[*i].cert.hash.as_str()));
+        // ... unless the common verifier itself accepts the defective element when it is shown the
+        // real (hash-resolved) previous certificate: then the cache only repeated its verdict
+        let verifier_accepts_defect = {
+            let at = &pool.members[d.at].cert;
+            let answer = if d.is_node {
+                pool.default_answer.get(&at.previous_hash).map(|i| &pool.members[*i].cert)
+            } else {
+                d.parent.map(|i| &pool.members[i].cert)
+            };
+            let (out, _) = crate::seam_a::step(&pool.genesis_verifier, at, answer);
+            matches!(out, crate::seam_a::StepOutcome::Link { .. } | crate::seam_a::StepOutcome::Terminal)
+        };
+        let skipped_by_cache = !at_validated_here
+            && !verifier_accepts_defect
+            && d.path.iter().any(|i| from_cache.contains(&pool.members[*i].cert.hash.as_str()));
         // the link of a certificate validated in this call was judged against a served previous
         // certificate whose own check was then skipped because its hash field is a cache key
         let validated_here = res.events.iter().any(|e| !e.0 && e.1 == pool.members[d.at].cert.hash);
